@@ -638,7 +638,7 @@ void campaign(Ctx& ctx)
 {
 	bool const c20 = ctx.opt.prop == "C20";
 	bool const thorough = ctx.opt.tier == "thorough";
-	int const n = thorough ? 40000 : 500;
+	int const n = thorough ? 15000 : 500;
 	ctx.rc_campaign("udp histories (short)", gen_case(c20, 15), n, 40, 1);
 	ctx.rc_campaign("udp histories (long)", gen_case(c20, 80), n / 2, 200, 2);
 }
